@@ -139,6 +139,16 @@ CHECKS["C15"] = ("exploration",
     "mixed members; TransferTransformer histories of up to 6 steps with state fingerprints of the original.",
     "DESIGN.md §3 C15")
 
+CHECKS["C16"] = ("exploration",
+    "runtime monitors over a grammar of generated pipelines: enumeration vs an independent walk, pipeline2str "
+    "line/indent oracle, before/after differential and record/chain invariants for alter_pipeline_for_debugging "
+    "under multi-call histories, a DOT reader (declared endpoints and ports, acyclicity, presence, reachability) "
+    "with graphviz as a second opinion",
+    "Programs of depth <= 3 (thorough 4) over Pipeline / FeatureUnion / ColumnTransformer (named and integer "
+    "columns, remainder) / passthrough / leaf transformers / final predictor and three data schemas; only programs "
+    "scikit-learn fits are judged.",
+    "DESIGN.md §3 C16")
+
 PENDING = {}
 
 
